@@ -212,6 +212,7 @@ def families(tier, seed):
     fams.append(("language", lang))
     fams.append(("schedule_lists", [{"cfg": ci} for ci in range(ncfg)]))
     fams.append(("setters", [{"start": s, "depth": 3 if tier == "quick" else 4} for s in range(4)]))
+    fams.append(("degenerate_execution", [{"maxlen": 4 if tier == "quick" else 5}]))
     fams.append(("tomography", [{"cls": c, "flag": f} for c in ("qst", "povmt", "qpt", "qmpt") for f in (True, False)]))
     return fams
 
@@ -220,14 +221,15 @@ def guards(summary):
     g = []
     info = summary["info"]
     for k in ("obs_accept", "obs_item", "obs_order", "executed", "exec_none_raises", "setter_rejected",
-              "setter_accepted", "tomo_accept", "tomo_reject"):
+              "setter_accepted", "tomo_accept", "tomo_reject", "degenerate_executed:zero-probability-branch",
+              "degenerate_executed:tiny-probability-branch", "tomo_executed"):
         if info.get(k, 0) < 1:
             g.append("never observed: %s" % k)
     return g
 
 
 def execute(family, params, seed):
-    return {"language": ex_language, "schedule_lists": ex_lists, "setters": ex_setters,
+    return {"language": ex_language, "schedule_lists": ex_lists, "setters": ex_setters, "degenerate_execution": ex_degenerate,
             "tomography": ex_tomography}[family](params, seed)
 
 
@@ -289,6 +291,76 @@ def ex_language(p, seed):
                             out.fail("experiment:exec-distribution", "schedule %r: got %r, reference %r" % (schedule, got, pr))
     inner(out, n - 1, n - 1 if L > 0 else 0)
     out.nontrivial = L > 0
+    out.outcome = "ok" if not out.fails else "fail"
+    return out
+
+
+# ---- execution of accepted schedules on DEGENERATE objects (zero and tiny outcome probabilities) -------------------
+
+def degenerate_pool(seed):
+    key = ("deg", seed)
+    if key in _POOL:
+        return _POOL[key]
+    c = A.make_system("Q1")
+    z0 = np.diag([1.0, 0.0]).astype(complex)
+    th = 1e-4                                         # tilted by 1e-4 rad: outcome probability sin^2(th/2) = 2.5e-9 in the z basis
+    v = np.array([np.cos(th / 2), np.sin(th / 2)], dtype=complex)
+    tilt = np.outer(v, v.conj())
+    P0, P1 = np.diag([1.0, 0.0]).astype(complex), np.diag([0.0, 1.0]).astype(complex)
+    X = np.array([[0, 1], [1, 0]], dtype=complex)
+    H = np.array([[1, 1], [1, -1]], dtype=complex) / np.sqrt(2)
+    ref = {"state": [z0, tilt], "povm": [[P0, P1], A.povms_ref(2, seed)["generic_m3"]],
+           "gate": [[X], [H]], "mprocess": [[[P0], [P1]], [[P0], [X @ P1]]]}     # Lueders z measurement; z measurement with reset to |0>
+    q = {"state": [A.q_state(c, x) for x in ref["state"]], "povm": [A.q_povm(c, x) for x in ref["povm"]],
+         "gate": [A.q_gate(c, x) for x in ref["gate"]], "mprocess": [A.q_mprocess(c, x) for x in ref["mprocess"]]}
+    _POOL[key] = (ref, q)
+    return _POOL[key]
+
+
+def ex_degenerate(p, seed):
+    """every accepted schedule [state, (gate|mprocess)*, povm] up to the length bound over a pool whose circuits have outcomes of
+    probability exactly 0 and of probability 2.5e-9: it must execute, and the distribution must be normalised"""
+    from quara.qcircuit.experiment import Experiment
+    out = Out()
+    ref, q = degenerate_pool(seed)
+    mids = [("gate", 0), ("gate", 1), ("mprocess", 0), ("mprocess", 1)]
+    n = 0
+    for nm in range(0, p["maxlen"] - 1):
+        for mid in itertools.product(mids, repeat=nm):
+            for si in (0, 1):
+                for pi in (0, 1):
+                    schedule = [("state", si)] + list(mid) + [("povm", pi)]
+                    n += 1
+                    ok, exp = A.call(Experiment, schedules=[schedule], states=list(q["state"]), povms=list(q["povm"]),
+                                     gates=list(q["gate"]), mprocesses=list(q["mprocess"]))
+                    out.ops += 1
+                    if not ok:
+                        out.fail("experiment:rejected-valid:degenerate-pool", "schedule %r: %s" % (schedule, A.fmt_exc(exp)))
+                        continue
+                    ok2, val = A.call(exp.calc_prob_dist, 0)
+                    out.ops += 1
+                    out.traces += 1
+                    nmp = sum(1 for k, _ in mid if k == "mprocess")
+                    cls = "mprocesses=%d" % nmp
+                    pr = ref_distribution(schedule, ref)
+                    kind = "zero-probability-branch" if (pr == 0).any() or pr.min() < 1e-30 else "tiny-probability-branch" if pr.min() < 1e-8 else "regular"
+                    out.count("degenerate_executed:" + kind)
+                    if not ok2:
+                        if isinstance(val, ValueError) and "not physically correct" in str(val) and si == 1 and nmp >= 1:
+                            # post-measurement state of a branch of probability 2.5e-9 rejected by the physicality check (the C06 finding)
+                            out.fail("experiment:exec-raises:post-measurement-state-rejected-as-unphysical:tilted-input-state:rare-outcome",
+                                     "accepted schedule %r cannot be executed: %s" % (schedule, A.fmt_exc(val)))
+                        else:
+                            out.fail("experiment:exec-raises:%s:%s:%s" % (type(val).__name__, kind, cls), "accepted schedule %r cannot be executed: %s" % (schedule, A.fmt_exc(val)))
+                        continue
+                    got = np.asarray(val, dtype=float).ravel()
+                    if got.shape != pr.shape:
+                        out.fail("experiment:exec-distribution:shape:%s" % cls, "schedule %r: %r outcomes, expected %r" % (schedule, got.shape, pr.shape))
+                    elif abs(got.sum() - 1) > 1e-12 or got.min() < 0:
+                        out.fail("experiment:exec-distribution:not-normalised:%s" % kind, "schedule %r: sum - 1 = %.3g, min %.3g" % (schedule, got.sum() - 1, got.min()))
+                    elif np.abs(got - pr).max() > 2e-8:
+                        out.fail("experiment:exec-distribution:values:%s:%s" % (kind, cls), "schedule %r: got %r, reference %r" % (schedule, got, pr))
+    inner(out, n - 1, n - 1)
     out.outcome = "ok" if not out.fails else "fail"
     return out
 
@@ -506,6 +578,29 @@ def ex_tomography(p, seed):
                     out.fail("tomography:%s:schedules-not-kept" % cls, "given %r kept %r" % (s, val._experiment.schedules))
             if not ok:
                 out.count("tomo_reject")
+    # the unknown object of this tomography and the reference lists in which it fills the empty slot
+    slot = {"qst": "state", "povmt": "povm", "qpt": "gate", "qmpt": "mprocess"}[cls]
+    true_q = q[slot][0]
+    lref = {"state": list(ref["state"]), "povm": list(ref["povm"]), "gate": [], "mprocess": []}
+    lref[slot] = [ref[slot][0]]
+
+    def model_matches(qt, scheds, label):
+        """schedule i of an accepted list can be executed through the tomography's model and gives the distribution of the items it names"""
+        for i, sch in enumerate(scheds):
+            okp, pd = A.call(qt.calc_prob_dist, true_q, i)
+            out.ops += 1
+            out.traces += 1
+            if not okp:
+                out.fail("tomography:%s:accepted-schedule-cannot-be-executed:%s" % (cls, label), "schedules %r index %d: %s" % (scheds, i, A.fmt_exc(pd)))
+                return
+            pr = ref_distribution(sch, lref)
+            got = np.asarray(pd, dtype=float).ravel()
+            out.count("tomo_executed")
+            if got.shape != pr.shape or abs(got.sum() - 1) > 1e-9 or np.abs(got - pr).max() > 1e-9:
+                out.fail("tomography:%s:executed-distribution-is-not-the-named-schedule's:%s" % (cls, label),
+                         "schedules %r index %d (%r): got %r, the named items give %r" % (scheds, i, sch, got.tolist(), pr.tolist()))
+                return
+
     # lists of two schedules: valid+valid (all ordered pairs), valid+invalid in both orders
     bad = [[("state", 0), ("povm", 0), ("povm", 0)], [("povm", 0), ("state", 0)], []]
     for a in valid:
@@ -517,6 +612,25 @@ def ex_tomography(p, seed):
                 out.fail("tomography:%s:rejected-valid-pair" % cls, "%r: %s" % ([a, b], A.fmt_exc(val)))
             elif list(val._experiment.schedules) != [a, b]:
                 out.fail("tomography:%s:schedules-not-kept" % cls, "%r" % ([a, b],))
+            else:
+                model_matches(val, [a, b], "pair")
+    # lists longer than the object lists (repeats), every ordered triple of valid schedules
+    for trip in itertools.product(valid, repeat=3):
+        n += 1
+        ok, val = A.call(make, list(trip))
+        out.ops += 1
+        if not ok:
+            out.fail("tomography:%s:rejected-valid-triple" % cls, "%r: %s" % (list(trip), A.fmt_exc(val)))
+        elif list(val._experiment.schedules) != list(trip):
+            out.fail("tomography:%s:schedules-not-kept" % cls, "%r" % (list(trip),))
+        else:
+            model_matches(val, list(trip), "triple")
+    for a in valid:
+        n += 1
+        ok, val = A.call(make, [a])
+        if ok:
+            model_matches(val, [a], "single")
+    for a in valid:
         for b in bad:
             for pair in ([a, b], [b, a]):
                 n += 1
